@@ -11,7 +11,7 @@ except OSError:
     pass
 hooks_commits = []
 try:
-    hooks_commits = [l.strip() for l in open(os.path.join(V, "MANIFEST.hooks")) if l.strip() and not l.startswith("#")]
+    hooks_commits = [l.split()[0] for l in open(os.path.join(V, "MANIFEST.hooks")) if l.strip() and not l.startswith("#")]
 except OSError:
     pass
 checks, na = [], []
